@@ -15,12 +15,14 @@ open B6.Lemmas.Search B6.Lemmas.TagQuery
 /-- **Sound and complete.** For features with well-formed keys and distinct IDs, an index that holds exactly their
 postings, and any query over searchable tags, `Query.Compile` yields a well-formed search query that denotes
 exactly `expected fs q`: the IDs of the searchable features whose tags satisfy the query, strictly increasing,
-each once. -/
+each once (and whose key-range bounds lie in any key domain containing the type bounds). -/
 theorem compile_sound_complete (fs : List Feature) (ix : Index) (hinv : IndexInv fs ix)
-    (hfs : ∀ f ∈ fs, FeatureOK f) (hid : (fs.map Feature.id).Nodup) (q : Query) (hq : QueryOK q) :
-    ∃ sq, lower q = some sq ∧ sq.WF ∧ sq.denote ix = expected fs q ∧ StrictSorted (expected fs q) := by
-  obtain ⟨sq, h1, h2, h3⟩ := lower_spec fs ix hinv hfs hid q hq
-  refine ⟨sq, h1, h2, ?_, sortDedup_sorted _⟩
+    (hfs : ∀ f ∈ fs, FeatureOK f) (hid : (fs.map Feature.id).Nodup) (q : Query) (hq : QueryOK q)
+    (K : Nat → Prop) (hK : ∀ t, (t < 4 ∨ t = 5) → K (typeBegin t)) :
+    ∃ sq, lower q = some sq ∧ sq.WF ∧ sq.KeysIn K ∧ sq.denote ix = expected fs q ∧
+      StrictSorted (expected fs q) := by
+  obtain ⟨sq, h1, h2, hk, h3⟩ := lower_spec fs ix K hinv hfs hid hK q hq
+  refine ⟨sq, h1, h2, hk, ?_, sortDedup_sorted _⟩
   apply StrictSorted.ext (denote_spec ix hinv.1 sq).1 (sortDedup_sorted _)
   intro x
   rw [h3 x]
@@ -36,28 +38,85 @@ theorem compile_sound_complete (fs : List Feature) (ix : Index) (hinv : IndexInv
 
 /-- The index every world builds (`TokensForFeature` per feature, posting lists kept sorted) satisfies the
 invariant — for every feature list. -/
-theorem build_index_inv (kind : LeafKind) (fs : List Feature) : IndexInv fs (buildIndex kind fs) :=
-  buildIndex_inv kind fs
+theorem build_index_inv (kind : LeafKind) (fs : List Feature) (names : List String) :
+    IndexInv fs (buildIndex kind fs names) :=
+  buildIndex_inv kind fs names
 
-/-- **FindFeatures.** On the index built from `fs`, running the compiled iterator with plain `Next` calls returns
-exactly `expected fs q`, in that order. -/
-theorem find_features_spec (kind : LeafKind) (fs : List Feature) (hfs : ∀ f ∈ fs, FeatureOK f)
-    (hid : (fs.map Feature.id).Nodup) (q : Query) (hq : QueryOK q) :
-    findFeatures (buildIndex kind fs) q = .ok (expected fs q) := by
-  have hinv := buildIndex_inv kind fs
-  obtain ⟨sq, h1, h2, h3, _⟩ := compile_sound_complete fs _ hinv hfs hid q hq
+/-- what a compact file asks of a feature ID: three type bits, a namespace of the file's table, and not
+point/`""` (`TypeAndNamespace` 0, which the posting-list encoder takes for "no namespace yet") -/
+def CompactFeatureOK (names : List String) (f : Feature) : Prop :=
+  f.typ < 8 ∧ f.ns < names.length ∧ (f.typ ≠ 0 ∨ f.ns ≠ 0)
+
+/-- **FindFeatures, any index kind.** On the index built from `fs` — array, tree, or compact (posting lists =
+`PostingList.Fill` of each token's IDs, namespace table `names`) — running the compiled iterator with plain `Next`
+calls returns exactly `expected fs q`, in that order. -/
+theorem find_features_spec_general (kind : LeafKind) (names : List String) (fs : List Feature)
+    (hfs : ∀ f ∈ fs, FeatureOK f) (hid : (fs.map Feature.id).Nodup)
+    (hcompact : kind = .compact →
+      B6.Model.Posting.TableOK ⟨names⟩ ∧ names ≠ [] ∧ ∀ f ∈ fs, CompactFeatureOK names f)
+    (q : Query) (hq : QueryOK q) :
+    findFeatures (buildIndex kind fs names) q = .ok (expected fs q) := by
+  have hinv := buildIndex_inv kind fs names
+  -- the built index is a legitimate compact index
+  have hc : CompactOK (buildIndex kind fs names) := by
+    intro hk
+    have hk' : kind = .compact := hk
+    obtain ⟨ht, _, hcf⟩ := hcompact hk'
+    refine ⟨ht, ?_⟩
+    intro e he x hx
+    obtain ⟨f, hf, hfx, _⟩ := (hinv.2 e.1 x).1 ((mem_get_iff _ hinv.1 e.1 x).2 ⟨e, he, rfl, hx⟩)
+    obtain ⟨h1, h2, h3⟩ := hcf f hf
+    obtain ⟨hns, hval, _⟩ := hfs f hf
+    have hdiv : x / 2 ^ 64 = f.typ * 8192 + f.ns := by
+      rw [← hfx]
+      simp only [Feature.id, key, nsBound, valBound, Nat.reducePow] at *
+      omega
+    rw [hdiv]
+    simp only [nsBound] at hns
+    refine ⟨by omega, ?_, ?_⟩
+    · show (f.typ * 8192 + f.ns) / 8192 < 8; omega
+    · show (f.typ * 8192 + f.ns) % 8192 < names.length; omega
+  -- the type bounds are in the key domain
+  have hK : ∀ t, (t < 4 ∨ t = 5) → (buildIndex kind fs names).dom (typeBegin t) := by
+    intro t ht
+    unfold Index.dom
+    cases hk : kind with
+    | compact =>
+      obtain ⟨_, hne, _⟩ := hcompact hk
+      have hlen : 0 < names.length := List.length_pos_iff.2 hne
+      simp only [buildIndex, typeBegin, key, nsBound, valBound, Nat.reducePow]
+      omega
+    | array => simp [buildIndex]
+    | tree => simp [buildIndex]
+  obtain ⟨sq, h1, h2, hk, h3, _⟩ := compile_sound_complete fs _ hinv hfs hid q hq _ hK
   unfold findFeatures
   simp only [h1]
-  have href := B6.Props.C06.compile_refines ((buildIndex kind fs).total + 1) (buildIndex kind fs) hinv.1
-    (Nat.lt_succ_self _) sq h2 (depth sq) (Nat.le_refl _)
-  have hlen := denote_length_le (buildIndex kind fs) hinv.1 sq
-  have := drain_of_refinesAt (ops ((buildIndex kind fs).total + 1) (depth sq)) (start (sq.denote _)) _
-    ((buildIndex kind fs).total - (sq.denote (buildIndex kind fs)).length) href
-  have hfuel : (start (sq.denote (buildIndex kind fs))).rest.length + 1 +
-      ((buildIndex kind fs).total - (sq.denote (buildIndex kind fs)).length) = (buildIndex kind fs).total + 1 := by
+  have href := B6.Props.C06.compile_refines ((buildIndex kind fs names).total + 1) (buildIndex kind fs names)
+    hinv.1 hc (Nat.lt_succ_self _) sq h2 hk (depth sq) (Nat.le_refl _)
+  have hlen := denote_length_le (buildIndex kind fs names) hinv.1 sq
+  have := drain_of_refinesAt (ops (buildIndex kind fs names).dom ((buildIndex kind fs names).total + 1) (depth sq))
+    (start (sq.denote _)) _
+    ((buildIndex kind fs names).total - (sq.denote (buildIndex kind fs names)).length) href
+  have hfuel : (start (sq.denote (buildIndex kind fs names))).rest.length + 1 +
+      ((buildIndex kind fs names).total - (sq.denote (buildIndex kind fs names)).length) =
+        (buildIndex kind fs names).total + 1 := by
     simp only [start]; omega
   rw [hfuel] at this
   rw [this, ← h3]; rfl
+
+/-- **FindFeatures** on the in-memory worlds (basic: array index; mutable: tree index). -/
+theorem find_features_spec (kind : LeafKind) (hkind : kind ≠ .compact) (fs : List Feature)
+    (hfs : ∀ f ∈ fs, FeatureOK f) (hid : (fs.map Feature.id).Nodup) (q : Query) (hq : QueryOK q) :
+    findFeatures (buildIndex kind fs) q = .ok (expected fs q) :=
+  find_features_spec_general kind [] fs hfs hid (fun h => absurd h hkind) q hq
+
+/-- **FindFeatures on a compact world**: the index's token lists are C08 posting lists (`PostingList.Fill` of each
+token's feature IDs), read by the byte-level `compact.Iterator` model under the same iterator algebra. -/
+theorem find_features_spec_compact (names : List String) (ht : B6.Model.Posting.TableOK ⟨names⟩)
+    (hne : names ≠ []) (fs : List Feature) (hfs : ∀ f ∈ fs, FeatureOK f) (hid : (fs.map Feature.id).Nodup)
+    (hcf : ∀ f ∈ fs, CompactFeatureOK names f) (q : Query) (hq : QueryOK q) :
+    findFeatures (buildIndex .compact fs names) q = .ok (expected fs q) :=
+  find_features_spec_general .compact names fs hfs hid (fun _ => ⟨ht, hne, hcf⟩) q hq
 
 /-- **k-way merge.** `b6.MergeFeatures` over streams that yield strictly increasing ID lists yields, under any
 number of `Next` calls, what the spec cursor over the merged, duplicate-free list yields. -/
@@ -97,6 +156,15 @@ theorem tagged_at_key_counterexample :
   decide
 
 /-! ## Non-vacuity -/
+
+example : B6.Model.Posting.TableOK ⟨["", "a", "b"]⟩ ∧ ∀ f ∈ exFeatures, CompactFeatureOK ["", "a", "b"] f := by
+  unfold B6.Model.Posting.TableOK CompactFeatureOK exFeatures
+  decide
+
+/-- the compact index of the example really runs on posting-list bytes and returns the expected IDs -/
+example : (findFeatures (buildIndex .compact exFeatures ["", "a", "b"])
+    (.typed 0 (.keyed "#amenity".toList))).toOption = some [key 0 1 2] := by decide
+
 
 example : ∀ f ∈ exFeatures, FeatureOK f := by
   intro f hf
